@@ -176,3 +176,7 @@ impl State {
         }
     }
 }
+
+#[cfg(loom_verif)]
+#[path = "/verif/hooks/mpsc_verif.rs"]
+pub(crate) mod verif;
